@@ -507,6 +507,9 @@ retry:
 func binaryOp(cb *CodeBuilder, tok token.Token, args []*internal.Elem) constant.Value {
 	if len(args) == 2 {
 		if a, b := args[0].CVal, args[1].CVal; a != nil && b != nil {
+			if binaryOpKinds[tok] != binaryOpShift && !sameConstClass(a, b) {
+				return nil // mismatched operands (e.g. bool and string): not foldable, the type check reports them
+			}
 			if tok == token.QUO && isNormalInt(cb, args[0]) && isNormalInt(cb, args[1]) {
 				tok = token.QUO_ASSIGN // issue #805
 			}
@@ -514,6 +517,19 @@ func binaryOp(cb *CodeBuilder, tok token.Token, args []*internal.Elem) constant.
 		}
 	}
 	return nil
+}
+
+// sameConstClass reports whether go/constant can combine a and b: both numeric,
+// both bool or both string (an unknown value combines with anything).
+func sameConstClass(a, b constant.Value) bool {
+	ka, kb := a.Kind(), b.Kind()
+	if ka == constant.Unknown || kb == constant.Unknown {
+		return true
+	}
+	isNum := func(k constant.Kind) bool {
+		return k == constant.Int || k == constant.Float || k == constant.Complex
+	}
+	return ka == kb || (isNum(ka) && isNum(kb))
 }
 
 func isBool(cb *CodeBuilder, arg *internal.Elem) bool { // is bool
